@@ -1,7 +1,7 @@
 """C06 — the RIB's change stream reproduces the RIB (structural clauses)."""
 import re
 
-from ..cfg import FnView, Renderer, walk, show, strip, branches, guards_of, flat_guards
+from ..cfg import FnView, Renderer, walk, show, strip, branches, guards_of, flat_guards, norm_cond, bool_edges
 from ..facts import callee_names, short
 from ..util import view, crate_fns, root_name, agg_field, expr_calls, expr_fields, field_writes, last_field, field_path
 
@@ -176,8 +176,17 @@ def check_ids(prog, r):
             r.unanalysable("%s: cannot find where the Destination is created" % short(prog.name(c)), fv.loc())
             continue
         stores = [b for b, t in fv.calls() if any(re.search(r"Vec::<T, A>::(insert|push)$", n) for n in callee_names(t)) and "RibEntry" in t["f"].get("ga", "")]
+        # a path that gives up (prefix limit) is fine when it removes the destination it may have created, or
+        # when it is taken only if the destination already holds an entry (`dst.entry.is_empty()` is false)
+        brs_ = branches(fv)
+        removes = [b for b, t in fv.calls() if re.search(r"HashMap::<K, V, S(, A)?>::remove$", t["f"].get("name", "")) and "Destination" in t["f"].get("ga", "")]
+        nonempty_edges = set()
+        for bb, br in brs_.items():
+            ex, neg = norm_cond(br.expr)
+            if isinstance(ex, tuple) and ex[0] == "call" and ex[1].endswith("::is_empty") and "entry" in expr_fields(ex):
+                nonempty_edges |= set(bool_edges(fv, br, neg))      # the edge on which is_empty() is false
         for cb in cre:
-            escaping = [e for e in fv.returns() if e in fv.reach_after(cb, stores)]
+            escaping = [e for e in fv.returns() if e in fv.reach_after(cb, set(stores) | set(removes), nonempty_edges)]
             if escaping:
                 lines = sorted({fv.line(_ret_origin(fv, e, stores, cb)) for e in escaping})
                 r.fail(prog.name(c), "alloc-without-entry",
